@@ -22,10 +22,14 @@ import numpy as np
 from common import zlit, coqc, coqc_many, parse_evals, parse_zlist, coq_string, frac
 import c08_writers as W
 import c08_regex
+import c08_layout
 
 THEOREMS = ["C08_readvalues_roundtrip", "C08_readvalues_any_records", "C08_tokens_roundtrip",
             "C08_adf11_axis_order", "C08_adf2x_axis_order", "C08_adf11_charge_convention", "C08_dict_last_write_wins",
-            "C08_block_lookup_found", "C08_block_lookup_absent_rejected", "C08_adf11_header_mismatch_rejected"]
+            "C08_block_lookup_found", "C08_block_lookup_absent_rejected", "C08_adf11_header_mismatch_rejected",
+            "C08_adas2x_file_roundtrip", "C08_take_vals_stream", "C08_adf15_block_roundtrip",
+            "C08_dispatch_table_sound", "C08_adf11_wiring_sound", "C08_thermalcx_planes",
+            "C08_parse_int_digits", "C08_parse_float_fixed", "C08_parse_float_exp"]
 
 ERR = {ValueError: "EValue", RuntimeError: "ERuntime", IndexError: "EIndex", KeyError: "EKey", TypeError: "EType",
        AttributeError: "EAttr"}
@@ -611,6 +615,8 @@ def roundtrip(ctx, c, E, path, workdir):
                     fails.append("thermal CX PEC %s read back with shape %s / donor-temperature dependence" % (tr, rate.shape))
                     continue
                 back.append((keys, list(rate.shape[:2]), [flat(r["ne"]), flat(r["te"]), flat(rate[:, :, 0])]))
+                c.back3d = getattr(c, "back3d", []) + [(("hydrogen", 0, c.charge + 1) + tr, list(rate.shape),
+                                                        [flat(r["ne"]), flat(r["te"]), flat(td), flat(rate)])]
             else:
                 get = repository.get_pec_excitation_rate if keys[0] == "excitation" else repository.get_pec_recombination_rate
                 r = get(el, c.charge, tr, repo)
@@ -866,6 +872,38 @@ def run_histories(ctx, E, cases, workdir, n_hist):
     return fails, steps
 
 
+def probe_locate(workdir):
+    """_locate_adas_file in all sixteen situations (adas_path given / file there / download / file in the cache); a download
+    attempt is observed through the stubbed urlretrieve.  Returns the Coq literal of the observations."""
+    from cherab.openadas import install
+    obs = []
+    for k in range(16):
+        given, there, download, cached = bool(k & 8), bool(k & 4), bool(k & 2), bool(k & 1)
+        root = os.path.join(workdir, "locate_%d" % k)
+        adas, repo = os.path.join(root, "adas"), os.path.join(root, "repo")
+        os.makedirs(adas)
+        os.makedirs(os.path.join(repo, "_download_cache", "adf99"))
+        if there:
+            os.makedirs(os.path.join(adas, "adf99"))
+            open(os.path.join(adas, "adf99", "x.dat"), "w").write("a")
+        if cached:
+            open(os.path.join(repo, "_download_cache", "adf99", "x.dat"), "w").write("c")
+        try:
+            p = install._locate_adas_file("adf99/x.dat", download=download, adas_path=adas if given else None, repository_path=repo)
+            if p is None:
+                r = "NotLocated"
+            elif os.path.abspath(p) == os.path.abspath(os.path.join(adas, "adf99", "x.dat")):
+                r = "InAdasPath"
+            elif os.path.abspath(p) == os.path.abspath(os.path.join(repo, "_download_cache", "adf99", "x.dat")):
+                r = "InCache"
+            else:
+                r = "NotLocated (* unexpected path %s *)" % os.path.basename(str(p))
+        except RuntimeError as exc:
+            r = "Download" if "download attempted" in str(exc) else "NotLocated"
+        obs.append("(%s, %s, %s, %s, %s)" % tuple(["true" if b else "false" for b in (given, there, download, cached)] + [r]))
+    return "[" + "; ".join(obs) + "]"
+
+
 def numpy_metastable_history(ctx, E, cases, workdir):
     """ADF12 with the donor metastable given as a NumPy integer: the unchanged code rejects the form (TypeError from json) --
     recorded as the expected outcome -- but a rejected install must not damage the repository: the same file installed next
@@ -945,6 +983,17 @@ def run(ctx):
         rx_ok, out = coqc(rx_path, timeout=300)
         ctx.obligation("Gen/C08/Regex.v compiles", "translator", rx_ok, out)
 
+    # ---- (T) constants and policy tables of the models, from the current source, with kernel-checked tie lemmas -------------
+    lay_text, lay_problems, layout = c08_layout.translate(REPO)
+    ctx.obligation("translator: columns / readvalues arguments / unit factors / charge-corrected types / install_files dispatch / "
+                   "install_adf11* wiring read off the source", "translator", not lay_problems, "\n".join(lay_problems))
+    lay_ok, lay_out = coqc(ctx.write_gen("Layout.v", lay_text), timeout=300)
+    ctx.obligation("Gen/C08/Layout.v: %d tie lemmas (model constants = source constants; dispatch_ok, wiring_ok) accepted by the kernel"
+                   % lay_text.count("Lemma "), "tie", lay_ok, lay_out)
+    if lay_problems or not lay_ok:
+        ctx.log("layout tie broken: %s %s" % (lay_problems, lay_out[-400:]))
+        problems = list(problems) + ["adf2x adf12 adf11.py adf15.py (layout tie of the source constants broken: search seeded with every format)"]
+
     workdir = os.path.join(os.environ.get("VERIF_SCRATCH", "/var/tmp"), "c08")
     shutil.rmtree(workdir, ignore_errors=True)
     os.makedirs(workdir)
@@ -954,7 +1003,7 @@ def run(ctx):
     if problems:
         # the translator tie is broken: before anything is concluded, the search is seeded with files that exercise the patterns of
         # the parser(s) whose expressions changed -- the multi-digit / many-block families (implementation only, no Coq side)
-        fmts = tuple(f for f in ("adf11", "adf15") if any((f + ".py") in pr for pr in problems)) or ("adf11", "adf15")
+        fmts = tuple(f for f in ("adf2x", "adf12", "adf11", "adf15") if any(f in pr for pr in problems)) or ("adf11", "adf15")
         extra = multi_digit_cases(ctx.rng, formats=fmts, reps=3, python_only=True)
         ctx.log("translator tie broken: search seeded with %d extra %s files" % (len(extra), "/".join(fmts)))
         cases += extra
@@ -981,8 +1030,12 @@ def run(ctx):
                 for f in fails:
                     search_fails.append((c, None, "installing the file and reading it back yields the same tables", f))
         else:
+            c.back3d = []
             fails, _ = roundtrip(ctx, c, E, path, workdir)
             n_roundtrip += 1
+            if c.back3d:
+                c.extra.append(("thermal-CX blocks read back from the repository (3-D, two donor temperatures) = model",
+                                "check_thermalcx %d (MODEL) %s" % (c.charge, raw_tbl_lit(c.back3d))))
             for f in fails:
                 search_fails.append((c, None, "installing the file and reading it back yields the same tables", f))
 
@@ -1003,6 +1056,9 @@ def run(ctx):
     search_fails += numpy_metastable_history(ctx, E, cases, workdir)
     ctx.log("histories: %d install steps on shared repositories, %d failures; %d files parsed twice" % (n_hist_steps, len(hist_fails), n_reparse))
 
+    first_coq = next((c for c in cases if not getattr(c, "python_only", False)), None)
+    if first_coq is not None:
+        first_coq.extra.append(("_locate_adas_file probed in 16 situations = model decision", "check_locate %s" % probe_locate(workdir)))
     # ---- (X) correspondence: the model is run by Coq on the text of the same files ---------------------------
     coq_cases = [c for c in cases if not getattr(c, "python_only", False)]
     ctx.log("implementation runs done (%d files); writing the Coq cases" % len(cases))
@@ -1117,10 +1173,23 @@ def run(ctx):
                       "keys, shapes, charge states, transitions, exception kinds": "exact",
                       "install/read-back (ADF12/15/21/22)": "bitwise equal doubles", "10**x oracle": "bracketed by 10^floor(x), 10^ceil(x) in Coq"},
         "regex_patterns_translated": patterns,
-        "partial": ["the theorems are about the record/token/index/lookup layers of the model; the regular-expression layer (separator and "
-                    "header-line recognition, comment index scraping) is translated from the source and tied by the correspondence only",
-                    "text -> number is Python's float(): modelled as the exact decimal value, compared at 2^-50",
-                    "ADF21/22 header column positions are those known to the author (no published sample offline)"],
+        "source_constants_tied_by_kernel_lemmas": layout,
+        "partial": ["file level: ADF21/ADF22 whole-file round trip and ADF15 block round trip are theorems; ADF12 block and ADF11 file round "
+                    "trips are not (their layers are: records, token streams, axis order, keyed tables, header check) -- the regular-expression "
+                    "layer of ADF11/ADF15 (separator / header / comment-index recognition) is translated from the source and tied by the "
+                    "correspondence only; in the ADF15 block theorem the header line enters through its regex captures as hypotheses",
+                    "text -> number: parse_int / parse_float are proved to return the decimal value of the printed digits for the I, F and "
+                    "1PE/1PD token shapes; that CPython's float() is the nearest double of that value is trusted and compared at 2^-50",
+                    "ADF21/22 header column positions are read off the source (kernel tie lemma) and agree with the writer; no published "
+                    "sample is available offline"],
+        "compared_in_coq": {"model = implementation tables (keys, shapes exact; values 2^-50)": "every file",
+                            "model = writer's tokens": "every well-formed file",
+                            "ADF11 install + read back through 10**x oracle": "every ADF11 file with an install type",
+                            "thermal-CX 3-D tables read back": "every ADF15 file with CHEXC blocks",
+                            "_locate_adas_file decision": "16 probed situations",
+                            "Coq writer records = file records": "EB section of every ADF21/22 file",
+                            "kernel tie lemmas": "Gen/C08/Layout.v (columns, readvalues arguments, sections, unit factors, charge-corrected "
+                                                 "types, donor temperatures, dispatch_ok, wiring_ok); Gen/C08/Regex.v (patterns)"},
     })
     ctx.coverage["samples"] = [{"kind": c.kind, "class": c.cls, "first_lines": c.text.splitlines()[:6]} for c in (cases[0], cases[-2])]
     ctx.grep_gate()
